@@ -62,17 +62,17 @@ pub open spec fn join_prefix<'a>(names: Seq<&'a str>, j: int) -> Seq<char>
     if j <= 0 { Seq::<char>::empty() }
     else { join_prefix(names, j - 1) + names[j - 1]@ + (if j < names.len() { ", "@ } else { Seq::<char>::empty() }) }
 }
-pub open spec fn import_line<'a>(path: &'a str, names: Seq<&'a str>) -> Seq<char> {
-    "import type { "@ + join_prefix(names, names.len() as int) + " } from \""@ + path@ + "\";\n"@
+pub open spec fn import_line<'a, K: View<V = Seq<char>>>(path: K, names: Seq<&'a str>) -> Seq<char> {
+    "import type { "@ + join_prefix(names, names.len() as int) + " } from \""@ + path.view() + "\";\n"@
 }
 // the first n entries of the map in ascending key order, each with its names in ascending order
-pub open spec fn render_entries<'a>(m: Map<&'a str, Set<&'a str>>, keys: Seq<&'a str>, n: int) -> Seq<char>
+pub open spec fn render_entries<'a, K: View<V = Seq<char>>>(m: Map<K, Set<&'a str>>, keys: Seq<K>, n: int) -> Seq<char>
     decreases n
 {
     if n <= 0 { Seq::<char>::empty() }
     else { render_entries(m, keys, n - 1) + import_line(keys[n - 1], canon(m[keys[n - 1]])) }
 }
-pub open spec fn render_imports<'a>(m: Map<&'a str, Set<&'a str>>) -> Seq<char> {
+pub open spec fn render_imports<'a, K: View<V = Seq<char>>>(m: Map<K, Set<&'a str>>) -> Seq<char> {
     render_entries(m, canon(m.dom()), canon(m.dom()).len() as int)
 }
 
